@@ -75,7 +75,7 @@ pub fn scenarios(quick: bool) -> Vec<Scenario> {
     }
     // --- lexicase on matrices
     for (rows, cases, errors) in [(vec![vec![3, 1], vec![1, 3], vec![2, 2]], 2usize, false), (vec![vec![1, 1, 2], vec![1, 1, 2]], 3, true), (vec![vec![5], vec![5], vec![5]], 0, false)] {
-        let c = c08::Case { rows: rows.clone(), cases, errors };
+        let c = c08::Case { rows: rows.clone(), cases, errors, grouped: false };
         let k = mcx::factorial(rows.len().max(cases) as u128) as u32;
         v.push(sc(format!("lexicase/{rows:?}/{cases}/{errors}"), true, move |env| format!("{:?}", c08::observe(&c, env, Alphabet::Rep { r: 479_001_600, k }))));
     }
